@@ -431,6 +431,11 @@ pub fn run(tier: Tier, _replay: Option<String>) -> i32 {
                                 continue;
                             }
                             for maxdepth in tier.pick(vec![2, 3], vec![1, 2, 3, 4]) {
+                                // depth 4 (up to 2^15 accept vectors per start, re-explored from
+                                // every reachable state) only on a sub-grid
+                                if maxdepth == 4 && !(pi == 0 && zi == 0 && step == 0.6 && (trn == "identity" || trn == "lowrank1" || d == 1)) {
+                                    continue;
+                                }
                                 cfgs.push(Cfg {
                                     name: format!("{tn}-{trn}-{kind:?}-eps{step}-x{pi}-z{zi}-maxdepth{maxdepth}"),
                                     target: target.clone(),
